@@ -295,7 +295,12 @@ impl<T: Qcow2IoOps> Qcow2Dev<T> {
         {
             Some(to_kill) => {
                 log::warn!("add_rb_slice: cache eviction, slices {}", to_kill.len());
-                self.flush_cache_entries(to_kill).await
+                self.flush_cache_entries(to_kill).await?;
+
+                // the evicted slices are clean for everyone now, so neither
+                // the next reftable flush nor any l2 slice flush will order
+                // itself after them
+                self.call_fsync(0, usize::MAX, 0).await
             }
             _ => Ok(()),
         }
